@@ -152,15 +152,21 @@ func (l *entryLog) AddEntries(entries []raftpb.Entry) error {
 				panic(fmt.Sprintf("file index:%d is greater than all files count:%d", firstIdx, len(l.files)))
 			}
 			l.filesSync.Lock()
-			extra := l.files[firstIdx+1:]
+			extra := append([]*logFile{}, l.files[firstIdx+1:]...)
 			extra = append(extra, l.current)
-			l.current = l.files[firstIdx]
-			for _, ef := range extra {
+			// Delete the newest file first: a process that dies in between leaves a log without a hole. When a removal
+			// fails, the files that are still on disk stay part of the log (the newest of them is the current file), the
+			// error goes to the caller, and the retry finds the conflict in the same rotated file again.
+			for i := len(extra) - 1; i >= 0; i-- {
+				ef := extra[i]
 				logger.GetLogger().Info(fmt.Sprintf("Deleting extra file: %d\n", ef.fid))
 				if err := ef.delete(); err != nil {
-					logger.GetLogger().Error(fmt.Sprintf("deleting file: %s. error: %+v\n", ef.entry.Name(), err))
+					l.keepAfterFailedDelete(ef, firstIdx+1+i)
+					l.filesSync.Unlock()
+					return errors.Wrapf(err, "while deleting entry file %d", ef.fid)
 				}
 			}
+			l.current = l.files[firstIdx]
 			logger.GetLogger().Info("clearFirstFile slots", zap.Int("startSlot", lastIdx), zap.Int("endSlot", maxNumEntries),
 				zap.Int("fileLoc", firstIdx), zap.Int("fileNum", len(l.files)))
 			l.current.entry.setCurrent()
@@ -315,6 +321,7 @@ func (l *entryLog) deleteBefore(raftIndex uint64) error {
 		return fmt.Errorf("deleteBefore slotGe return inValid")
 	}
 
+	all := l.files
 	var before []*logFile
 	if fidx == -1 { // current file
 		before = l.files
@@ -324,12 +331,32 @@ func (l *entryLog) deleteBefore(raftIndex uint64) error {
 		l.files = l.files[fidx:]
 	}
 
-	for _, ef := range before {
+	for i, ef := range before {
 		if err := ef.delete(); err != nil {
-			logger.GetLogger().Error(fmt.Sprintf("while deleting file: %s", ef.entry.Name()), zap.Error(err))
+			// the files that are still on disk stay part of the log: no hole after the next start
+			if nf, oerr := openLogFile(l.dir, ef.fid); oerr == nil {
+				all[i] = nf
+			}
+			l.files = all[i:]
+			return errors.Wrapf(err, "while deleting file: %s", ef.entry.Name())
 		}
 	}
 	return nil
+}
+
+// keepAfterFailedDelete is called when the removal of ef failed while the later files of a conflict were being deleted
+// (newest first): ef and everything older are still on disk. ef - position pos in l.files, or the current file when pos
+// == len(l.files) - is the newest file now, i.e. the current one. Its descriptor may be closed already, so it is opened again.
+func (l *entryLog) keepAfterFailedDelete(ef *logFile, pos int) {
+	if nf, err := openLogFile(l.dir, ef.fid); err == nil {
+		ef = nf
+	}
+	if pos < len(l.files) {
+		l.files = l.files[:pos]
+	}
+	l.current = ef
+	l.current.entry.setCurrent()
+	l.nextEntryIdx = l.current.firstEmptySlot()
 }
 
 // Moves the current logFile into l.files and creates a new logFile.
